@@ -57,6 +57,58 @@ pub fn contract_parse_total(d: &[u8]) {
     }
 }
 
+/// contract (merging, order-freeness): the parts of a 64-player legacy info ("dtsf", each part repeats the header and
+/// carries its client offset) merged in any order give the same complete info, which lists every client once.
+/// (Repeated parts are not exercised here: see the known finding on `merge`.)
+#[cfg(not(kani))]
+pub fn contract_merge_order(clients: &[(usize, u8, i32, i32, bool)], cuts: (usize, usize), p: [usize; 3], q: [usize; 3]) {
+    let names = ["a", "b", "(connecting)", "(connecting)", "zz", "nameless tee"];
+    let n = clients.len();
+    let (c1, c2) = (cuts.0.min(n), cuts.1.min(n).max(cuts.0.min(n)));
+    let ranges = [(0, c1), (c1, c2), (c2, n)];
+    let mut parts: Vec<PartialServerInfo> = Vec::new();
+    for &(lo, hi) in ranges.iter() {
+        if lo == hi && lo != 0 {
+            continue;
+        }
+        let mut d: Vec<u8> = INFO_6_64.to_vec();
+        let hdr = format!("7\x000.6.4\x00srv\x00dm1\x00DM\x000\x00{}\x0064\x00{}\x0064\x00{}\x00", n, n, lo);
+        d.extend_from_slice(hdr.as_bytes());
+        for &(name, clan, country, score, player) in &clients[lo..hi] {
+            let c = format!("{}\x00c{}\x00{}\x00{}\x00{}\x00", names[name % names.len()], clan % 3, country, score, player as i32);
+            d.extend_from_slice(c.as_bytes());
+        }
+        let part = match parse_response(&d) {
+            Some(Response::Info664(x)) => x.parse().expect("a well-formed part must parse"),
+            _ => panic!("a well-formed dtsf datagram was not recognised"),
+        };
+        parts.push(part);
+    }
+    let merge_in = |order: &[usize; 3]| -> Option<ServerInfo> {
+        let mut idx: Vec<usize> = Vec::new();
+        for &o in order.iter() {
+            let o = o % parts.len();
+            if !idx.contains(&o) {
+                idx.push(o);
+            }
+        }
+        for o in 0..parts.len() {
+            if !idx.contains(&o) {
+                idx.push(o);
+            }
+        }
+        let mut acc = parts[idx[0]].clone();
+        for &o in &idx[1..] {
+            acc.merge(parts[o].clone()).expect("disjoint parts of one info must merge");
+        }
+        acc.get_info().cloned()
+    };
+    let a = merge_in(&p).expect("all clients received: the info must be complete");
+    let b = merge_in(&q).expect("all clients received: the info must be complete");
+    assert!(a == b, "the merged info depends on the order of merging");
+    assert!(a.clients.len() == n, "every client exactly once");
+}
+
 pub mod proofs {
     #[allow(unused_imports)]
     use super::draw;
@@ -121,5 +173,16 @@ pub mod proofs {
         }
         draw::reached();
         contract_parse_total(&d);
+    });
+    #[cfg(not(kani))]
+    harness!(sampled_sb_merge_order, unwind = 1, {
+        let n = draw::usize_le(10);
+        let clients: Vec<(usize, u8, i32, i32, bool)> =
+            (0..n).map(|_| (draw::usize_le(5), draw::u8(), draw::usize_le(3) as i32 - 1, draw::usize_le(4) as i32, draw::bool())).collect();
+        let cuts = (draw::usize_le(10), draw::usize_le(10));
+        let p = [draw::usize_le(2), draw::usize_le(2), draw::usize_le(2)];
+        let q = [draw::usize_le(2), draw::usize_le(2), draw::usize_le(2)];
+        draw::reached();
+        contract_merge_order(&clients, cuts, p, q);
     });
 }
